@@ -217,7 +217,13 @@ class JnpClipPlugin(PrimitiveLeafPlugin):
         a_max: AbstractValue,
         **_: object,
     ) -> ShapedArray:
-        return ShapedArray(x.shape, x.dtype)
+        # Bounds broadcast against x: clip(x[3], lo, hi[2, 3]) has shape (2, 3).
+        out_shape = jnp.broadcast_shapes(
+            tuple(x.shape),
+            tuple(getattr(a_min, "shape", ())),
+            tuple(getattr(a_max, "shape", ())),
+        )
+        return ShapedArray(out_shape, x.dtype)
 
     def lower(self, ctx: LoweringContextProtocol, eqn: JaxprEqn) -> None:
         x_var, lo_var, hi_var = eqn.invars
